@@ -233,7 +233,11 @@ FallbackSteps(S, t) ==
   LET T == TT(S, t)   X == XX(S, t)   i == T.i   o == T.obj   p == Stack[i]   pr == T.res   last == Pair(pr.r, pr.e) IN
   CASE T.sub = "-" ->
          IF IsFailureX(p.h, pr.r, pr.e)
-         THEN One([S EXCEPT !.th[t].sub = "c1"], Lab("OnFailure", S, t, i, last, NoX))
+         \* (p.fld: the OnFailure listener takes that long - the cancellation check comes after it)
+         THEN One(IF "fld" \in DOMAIN p /\ p.fld > 0
+                  THEN [Block(S, t, [k |-> "sleep", until |-> now + p.fld, coop |-> FALSE, kk |-> 0]) EXCEPT !.th[t].sub = "c1"]
+                  ELSE [S EXCEPT !.th[t].sub = "c1"],
+                  Lab("OnFailure", S, t, i, last, NoX))
          ELSE One(Ret(S, t, i - 1, WithDone(pr, TRUE, TRUE)), Lab("OnSuccess", S, t, i, last, NoX))
     [] T.sub = "c1" ->      \* IsCanceledWithResult before running the fallback (mutex)
          IF Canceled(X, o) THEN Silent([Ret(S, t, i - 1, CancelResult(X, o)) EXCEPT !.th[t].sub = "-"])
